@@ -23,7 +23,7 @@ import ast
 import copy
 import json
 import os
-from typing import Dict, List, Optional, Set, Tuple
+from typing import Callable, Dict, List, Optional, Set, Tuple
 
 MAX_DEPTH = 3
 MAX_STMTS = 120
@@ -1374,7 +1374,7 @@ def expand_module(tree: ast.Module, modname: str) -> Tuple[int, List[str]]:
     lm = lower_match(tree)
     ud = undo_decorators(tree, known) + run_init_subclass(tree, known)
     nc = propagate_new_constants(tree, modname) + len(lm)
-    te = TableEvaluator(tree)
+    te = TableEvaluator(tree, modname)
     nt = te.run() + nc
     if nc:
         te.sites.append(f"{nc} function(s) with new named constants replaced by their literals")
@@ -1937,14 +1937,147 @@ class _Subst(ast.NodeTransformer):
         return n
 
 
-def _fold(stmts: List[ast.stmt]) -> List[ast.stmt]:
-    """getattr(self, "name") -> self.name; single-assignment pure locals propagated; constant tests removed."""
+_PROGRAM_INDEX: Dict[str, object] = {}
+
+
+def set_program_index(trees: Dict[str, ast.Module]) -> None:
+    """Names defined as attributes anywhere in the program (methods, class-level names, `x.name = ...` stores) and the
+    classes that intercept attribute lookup - what `getattr(self, "name", default)` needs to be decided statically."""
+    defined: Set[str] = set()
+    bases: Dict[str, List[str]] = {}
+    intercepts: Set[str] = set()
+    for t in trees.values():
+        for n in ast.walk(t):
+            if isinstance(n, ast.ClassDef):
+                bl = []
+                for b in n.bases:
+                    while isinstance(b, ast.Subscript):
+                        b = b.value
+                    bl.append(b.id if isinstance(b, ast.Name) else (b.attr if isinstance(b, ast.Attribute) else "?"))
+                bases.setdefault(n.name, []).extend(bl)
+                for m in n.body:
+                    if isinstance(m, (ast.FunctionDef, ast.AsyncFunctionDef)):
+                        defined.add(m.name)
+                        if m.name in ("__getattr__", "__getattribute__"):
+                            intercepts.add(n.name)
+                    elif isinstance(m, ast.Assign):
+                        defined.update(x.id for t_ in m.targets for x in ast.walk(t_) if isinstance(x, ast.Name))
+                    elif isinstance(m, ast.AnnAssign) and isinstance(m.target, ast.Name):
+                        defined.add(m.target.id)
+            elif isinstance(n, ast.Attribute) and isinstance(n.ctx, ast.Store):
+                defined.add(n.attr)
+            elif isinstance(n, ast.Call) and isinstance(n.func, ast.Name) and n.func.id == "setattr" and n.args and isinstance(n.args[0], ast.Name) and n.args[0].id in ("self", "cls"):
+                defined.add("*")  # dynamic attribute creation on the object itself: nothing can be called absent
+            elif isinstance(n, ast.Attribute) and n.attr == "__dict__" and isinstance(n.value, ast.Name) and n.value.id in ("self", "cls"):
+                defined.add("*")
+    _PROGRAM_INDEX.clear()
+    _PROGRAM_INDEX.update(defined=defined, bases=bases, intercepts=intercepts)
+
+
+def _absent_in(cname: str) -> Callable[[str], bool]:
+    idx = _PROGRAM_INDEX
+    if not idx:
+        return lambda name: False
+    known_cls = idx["bases"]
+
+    def mro_ok(c, seen=()):
+        if c in ("object", "ABC", "Generic", "Protocol"):
+            return True
+        if c not in known_cls or c in seen or c in idx["intercepts"]:
+            return False
+        return all(mro_ok(b, seen + (c,)) for b in known_cls[c])
+
+    ok = mro_ok(cname)
+    return lambda name: ok and "*" not in idx["defined"] and name not in idx["defined"]
+
+
+_CORE_DEFS_TREE: Optional[ast.Module] = None
+_CORE_CLASSES_CACHE: Dict[int, Dict[str, Dict[str, object]]] = {}
+
+
+def set_core_defs(tree: Optional[ast.Module]) -> None:
+    global _CORE_DEFS_TREE
+    _CORE_DEFS_TREE = tree
+
+
+def _core_classes() -> Dict[str, Dict[str, object]]:
+    """MDF_<X> classes of pyrtma.core_defs with their constant class attributes (type_id, type_name, ...), and the module's
+    MT_<X> constants under the key '=MT'."""
+    t = _CORE_DEFS_TREE
+    if t is None:
+        return {}
+    if id(t) in _CORE_CLASSES_CACHE:
+        return _CORE_CLASSES_CACHE[id(t)]
+    out: Dict[str, Dict[str, object]] = {"=MT": {}}
+    for st in t.body:
+        if isinstance(st, ast.ClassDef) and st.name.startswith("MDF_"):
+            attrs = {}
+            for m in st.body:
+                if isinstance(m, ast.AnnAssign) and isinstance(m.target, ast.Name) and isinstance(m.value, ast.Constant):
+                    attrs[m.target.id] = m.value.value
+                elif isinstance(m, ast.Assign) and len(m.targets) == 1 and isinstance(m.targets[0], ast.Name) and isinstance(m.value, ast.Constant):
+                    attrs[m.targets[0].id] = m.value.value
+            out[st.name] = attrs
+        elif isinstance(st, (ast.Assign, ast.AnnAssign)):
+            tg = st.targets[0] if isinstance(st, ast.Assign) and len(st.targets) == 1 else getattr(st, "target", None)
+            if isinstance(tg, ast.Name) and tg.id.startswith("MT_") and isinstance(st.value, ast.Constant) and isinstance(st.value.value, int):
+                out["=MT"][tg.id] = st.value.value
+    _CORE_CLASSES_CACHE[id(t)] = out
+    return out
+
+
+def _fold(stmts: List[ast.stmt], methods: Optional[Set[str]] = None, absent: Optional[Callable[[str], bool]] = None) -> List[ast.stmt]:
+    """getattr(self, "name") -> self.name; single-assignment pure locals propagated; constant tests removed.  With
+    `methods` (the class's own method names) also getattr(self, "name", default) -> self.name, or -> default when
+    `absent(name)` says nothing in the program defines that attribute; f-strings / `+` over string literals, str.lower /
+    upper of a literal and constant class attributes of the core message classes are folded."""
+    core = _core_classes()
+
+    def core_class(e) -> Optional[Dict[str, object]]:
+        if isinstance(e, ast.Attribute) and e.attr in core and e.attr != "=MT" and isinstance(e.value, ast.Name):
+            return core[e.attr]
+        return None
 
     class G(ast.NodeTransformer):
         def visit_Call(self, n):
             self.generic_visit(n)
             if isinstance(n.func, ast.Name) and n.func.id == "getattr" and len(n.args) == 2 and isinstance(n.args[1], ast.Constant) and isinstance(n.args[1].value, str) and n.args[1].value.isidentifier():
                 return ast.copy_location(ast.Attribute(value=n.args[0], attr=n.args[1].value, ctx=ast.Load()), n)
+            if isinstance(n.func, ast.Name) and n.func.id == "getattr" and len(n.args) == 3 and not n.keywords and isinstance(n.args[1], ast.Constant) and isinstance(n.args[1].value, str) \
+                    and n.args[1].value.isidentifier() and isinstance(n.args[0], ast.Name) and n.args[0].id == "self" and methods is not None and _pure(n.args[2]):
+                if n.args[1].value in methods:
+                    return ast.copy_location(ast.Attribute(value=n.args[0], attr=n.args[1].value, ctx=ast.Load()), n)
+                if absent is not None and absent(n.args[1].value):
+                    return n.args[2]
+            if isinstance(n.func, ast.Attribute) and n.func.attr in ("lower", "upper") and not n.args and not n.keywords and isinstance(n.func.value, ast.Constant) and isinstance(n.func.value.value, str):
+                return ast.copy_location(ast.Constant(value=getattr(n.func.value.value, n.func.attr)()), n)
+            return n
+
+        def visit_Attribute(self, n):
+            self.generic_visit(n)
+            cc = core_class(n.value)
+            if cc is not None and isinstance(n.ctx, ast.Load) and n.attr in cc:
+                return ast.copy_location(ast.Constant(value=cc[n.attr]), n)
+            return n
+
+        def visit_JoinedStr(self, n):
+            self.generic_visit(n)
+            if all(isinstance(v, ast.Constant) or (isinstance(v, ast.FormattedValue) and v.conversion == -1 and v.format_spec is None and isinstance(v.value, ast.Constant) and isinstance(v.value.value, str)) for v in n.values):
+                return ast.copy_location(ast.Constant(value="".join(v.value if isinstance(v, ast.Constant) else v.value.value for v in n.values)), n)
+            return n
+
+        def visit_BinOp(self, n):
+            self.generic_visit(n)
+            if isinstance(n.op, ast.Add) and isinstance(n.left, ast.Constant) and isinstance(n.right, ast.Constant) and isinstance(n.left.value, str) and isinstance(n.right.value, str):
+                return ast.copy_location(ast.Constant(value=n.left.value + n.right.value), n)
+            return n
+
+        def visit_IfExp(self, n):
+            self.generic_visit(n)
+            if core_class(n.test) is not None:
+                return n.body  # a class object is true
+            if isinstance(n.test, ast.Constant):
+                return n.body if n.test.value else n.orelse
             return n
 
         def visit_Compare(self, n):
@@ -1976,9 +2109,11 @@ def _fold(stmts: List[ast.stmt]) -> List[ast.stmt]:
     out: List[ast.stmt] = []
     for s in stmts:
         if isinstance(s, ast.If) and isinstance(s.test, ast.Constant):
-            out.extend(_fold(s.body if s.test.value else s.orelse))
+            out.extend(_fold(s.body if s.test.value else s.orelse, methods, absent))
         elif isinstance(s, ast.If) and isinstance(s.test, ast.UnaryOp) and isinstance(s.test.op, ast.Not) and isinstance(s.test.operand, ast.Constant):
-            out.extend(_fold(s.orelse if s.test.operand.value else s.body))
+            out.extend(_fold(s.orelse if s.test.operand.value else s.body, methods, absent))
+        elif isinstance(s, ast.If) and core_class(s.test) is not None:
+            out.extend(_fold(s.body, methods, absent))
         else:
             out.append(s)
         if out and isinstance(out[-1], (ast.Return, ast.Raise, ast.Continue, ast.Break)):
@@ -2039,10 +2174,75 @@ def prune_dead_helpers(trees: Dict[str, ast.Module]) -> List[str]:
 
 
 class TableEvaluator:
-    def __init__(self, tree: ast.Module):
+    def __init__(self, tree: ast.Module, modname: Optional[str] = None):
         self.tree = tree
+        self.modname = modname
         self.count = 0
         self.sites: List[str] = []
+        self.module_tables: Dict[str, ast.Dict] = {}
+        self.core_alias: Optional[str] = None
+        self.changed: Set[int] = set()
+        if modname is not None:
+            self._module_tables()
+
+    def _module_tables(self):
+        """Module-level literal dicts introduced after the rules were written whose values are strings that complete a
+        method name (`{cd.MT_CONNECT: "connect"}` with methods `_on_connect`): read like class-level dispatch tables.
+        The core message registry (`_get_core_defs()`: type id -> MDF class, built by reflection over pyrtma.core_defs)
+        is available as a virtual table in functions that changed."""
+        kf = known_functions()
+        known = kf.get(self.modname, set()) if kf else None
+        if known is None:
+            return
+        all_methods = {m.name for c in self.tree.body if isinstance(c, ast.ClassDef) for m in c.body if isinstance(m, ast.FunctionDef)}
+        counts: Dict[str, int] = {}
+        for st in self.tree.body:
+            for t in (st.targets if isinstance(st, ast.Assign) else [st.target] if isinstance(st, ast.AnnAssign) else []):
+                if isinstance(t, ast.Name):
+                    counts[t.id] = counts.get(t.id, 0) + 1
+        for st in self.tree.body:
+            tgt = st.targets[0] if isinstance(st, ast.Assign) and len(st.targets) == 1 else (st.target if isinstance(st, ast.AnnAssign) and st.value is not None else None)
+            if not isinstance(tgt, ast.Name) or counts.get(tgt.id) != 1 or f"={tgt.id}" in known:
+                continue
+            val = st.value
+            if isinstance(val, ast.Dict) and val.keys and all(k is not None and _pure(k) for k in val.keys) \
+                    and all(isinstance(v, ast.Constant) and isinstance(v.value, str) and v.value and any(m.endswith(v.value) for m in all_methods) for v in val.values):
+                # never written through (`TABLE[k] = ...`, `.update`, `.pop` ...)
+                muts = [n for n in ast.walk(self.tree) if (isinstance(n, ast.Subscript) and isinstance(n.ctx, (ast.Store, ast.Del)) and isinstance(n.value, ast.Name) and n.value.id == tgt.id)
+                        or (isinstance(n, ast.Call) and isinstance(n.func, ast.Attribute) and isinstance(n.func.value, ast.Name) and n.func.value.id == tgt.id
+                            and n.func.attr in ("update", "pop", "popitem", "clear", "setdefault", "__setitem__", "__delitem__"))]
+                if not muts:
+                    self.module_tables[tgt.id] = val
+        for st in self.tree.body:
+            if isinstance(st, ast.ImportFrom) and st.module is None or isinstance(st, ast.ImportFrom) and st.module in ("pyrtma", ""):
+                for a in st.names:
+                    if a.name == "core_defs":
+                        self.core_alias = a.asname or a.name
+            elif isinstance(st, ast.Import):
+                for a in st.names:
+                    if a.name == "pyrtma.core_defs" and a.asname:
+                        self.core_alias = a.asname
+        self.changed = {id(d) for d in changed_functions(self.tree, self.modname)}
+
+    def _core_table(self) -> Optional[ast.Dict]:
+        core = _core_classes()
+        if not core or not self.core_alias:
+            return None
+        mt_by_val: Dict[int, List[str]] = {}
+        for k, v in core["=MT"].items():
+            mt_by_val.setdefault(v, []).append(k)
+        keys, vals, seen = [], [], set()
+        for cname, attrs in core.items():
+            if cname == "=MT" or not isinstance(attrs.get("type_id"), int):
+                continue
+            tid = attrs["type_id"]
+            names = mt_by_val.get(tid, [])
+            if len(names) != 1 or tid in seen:
+                return None  # a type id without exactly one MT_ constant (or two classes with one id): not modelled
+            seen.add(tid)
+            keys.append(ast.Attribute(value=ast.Name(id=self.core_alias, ctx=ast.Load()), attr=names[0], ctx=ast.Load()))
+            vals.append(ast.Attribute(value=ast.Name(id=self.core_alias, ctx=ast.Load()), attr=cname, ctx=ast.Load()))
+        return ast.Dict(keys=keys, values=vals) if keys else None
 
     # ---- tables -----------------------------------------------------------------------------------------------
     @staticmethod
@@ -2063,19 +2263,29 @@ class TableEvaluator:
     def _table_ref(self, e, tables, cname) -> Optional[str]:
         if isinstance(e, ast.Attribute) and isinstance(e.value, ast.Name) and e.value.id in ("self", "cls", cname) and e.attr in tables:
             return e.attr
+        if isinstance(e, ast.Name) and e.id in tables and e.id in self.module_tables:
+            return e.id
+        if isinstance(e, ast.Call) and isinstance(e.func, ast.Name) and e.func.id == "_get_core_defs" and not e.args and not e.keywords and "=core" in tables:
+            return "=core"
         return None
 
     # ---- rewriting a block ----------------------------------------------------------------------------------------
     def _cases(self, key: ast.expr, table: ast.Dict, make_body, default_body) -> List[ast.stmt]:
         chain: Optional[ast.If] = None
         head: Optional[ast.If] = None
+        dflt_text = "\n".join(ast.unparse(b) for b in default_body)
         for k, v in zip(table.keys, table.values):
-            node = ast.If(test=ast.Compare(left=copy.deepcopy(key), ops=[ast.Eq()], comparators=[copy.deepcopy(k)]), body=make_body(v) or [ast.Pass()], orelse=[])
+            body = make_body(v) or [ast.Pass()]
+            if len(table.keys) > 12 and "\n".join(ast.unparse(b) for b in body) == dflt_text:
+                continue  # a large table: a key that is handled exactly like the default needs no branch of its own
+            node = ast.If(test=ast.Compare(left=copy.deepcopy(key), ops=[ast.Eq()], comparators=[copy.deepcopy(k)]), body=body, orelse=[])
             if chain is None:
                 head = chain = node
             else:
                 chain.orelse = [node]
                 chain = node
+        if chain is None:
+            return default_body
         chain.orelse = default_body
         return [head]
 
@@ -2114,19 +2324,22 @@ class TableEvaluator:
                     continue
             # ---- `name = self.TABLE.get(key)` followed by the rest of the block
             if isinstance(s, ast.Assign) and len(s.targets) == 1 and isinstance(s.targets[0], ast.Name) and isinstance(s.value, ast.Call) and isinstance(s.value.func, ast.Attribute) \
-                    and s.value.func.attr == "get" and len(s.value.args) == 1 and _pure(s.value.args[0]) and not s.value.keywords:
+                    and s.value.func.attr == "get" and len(s.value.args) in (1, 2) and _pure(s.value.args[0]) and not s.value.keywords \
+                    and (len(s.value.args) == 1 or isinstance(s.value.args[1], ast.Constant)):
                 tn = self._table_ref(s.value.func.value, tables, cname)
                 rest = stmts[i + 1:]
                 if tn and sum(1 for r in rest for _ in ast.walk(r)) < 1500:
                     key, table, nm = s.value.args[0], tables[tn], s.targets[0].id
+                    dflt = s.value.args[1] if len(s.value.args) == 2 else ast.Constant(value=None)
+                    rich = tn == "=core" or tn in self.module_tables
 
-                    def mk2(v, nm=nm, rest=rest):
+                    def mk2(v, nm=nm, rest=rest, rich=rich):
                         body = [ast.copy_location(ast.Assign(targets=[ast.Name(id=nm, ctx=ast.Store())], value=copy.deepcopy(v)), s)] + [copy.deepcopy(r) for r in rest]
                         for b in body:
                             ast.fix_missing_locations(b)
-                        return self.block(_fold(body), tables, cname, methods)
+                        return self.block(_fold(body, methods, _absent_in(cname)) if rich else _fold(body), tables, cname, methods)
 
-                    out.extend(self._cases(key, table, mk2, mk2(ast.Constant(value=None))))
+                    out.extend(self._cases(key, table, mk2, mk2(dflt)))
                     self.count += 1
                     self.sites.append(f"dispatch table {tn} (.get) expanded at line {s.lineno}")
                     return out  # the rest of the block now lives inside the cases
@@ -2198,11 +2411,17 @@ class TableEvaluator:
     def run(self) -> int:
         for st in self.tree.body:
             if isinstance(st, ast.ClassDef):
-                tables = self._class_tables(st)
+                tables = dict(self.module_tables)
+                tables.update(self._class_tables(st))
                 methods = {m.name for m in st.body if isinstance(m, ast.FunctionDef)}
+                core_tab = self._core_table() if any(id(m) in self.changed for m in st.body) else None
                 for m in st.body:
                     if isinstance(m, ast.FunctionDef):
-                        m.body = self.block(m.body, tables, st.name, methods)
+                        tb = tables
+                        if core_tab is not None and id(m) in self.changed:
+                            tb = dict(tables)
+                            tb["=core"] = core_tab
+                        m.body = self.block(m.body, tb, st.name, methods)
                         for b in m.body:
                             ast.fix_missing_locations(b)
         return self.count
